@@ -7,7 +7,8 @@ C05 — the property as an executable predicate over what was OBSERVED of one ru
   no swallowed err  `res=ok` only if no mock component of any pool returned an error or panicked in this run
                     (unless the caller cancelled)
   cause carried     `res=err:pK:…:<component>`: that component of pool K did fail in this run
-  cancel            `res=ctx` only if the caller cancelled; after a cancel Run returns promptly
+  cancel            `res=ctx` only if the caller cancelled; a run cancelled before it was started never reports a
+                    component failure; after a cancel Run returns promptly
                     (`lat=slow` fails, `lat=mid` is inconclusive); once `Engine.Run` has seen its context done
                     (`engc=1`) it returns the cancellation error, and a cancelled run reports success only if every
                     pool had finished successfully on its own (`pK.main` contains `ok`)
@@ -187,6 +188,8 @@ def verdict (pl : Plan) (o : Obs) : String :=
     else if o.engc == "1" && o.res != "ctx" then s!"fail:cancel-lost:Engine.Run saw its context done but returned {o.res.take 40}"
     else if o.canc && o.res == "ok" && o.pools.any (fun po => !po.main.contains "ok") then
       "fail:cancel-lost:a cancelled run reported success although a pool had not finished successfully"
+    else if pl.cancel == "pre" && o.res.startsWith "err" then
+      s!"fail:cancel-lost:the caller had cancelled before Engine.Run was called, and it returned {o.res.take 40}"
     else if o.res == "wrappedctx" then "fail:wrong-cause:cancellation reported as a wrapped component error"
     else if o.canc && o.lat == "slow" then "fail:cancel-slow:Engine.Run returned more than 1.5 s after the cancel"
     else match gunCloseBad pl o with
